@@ -46,6 +46,8 @@ func init() {
 			{ID: "C14-R21", Title: "a Config is applied to the VM as a whole (shared with C11-R24)", Floor: 3, Run: theConfigurationIsAppliedAsAWhole},
 			{ID: "C14-R22", Title: "walks of one list are paired by position", Floor: 1, Run: walksOfOneListArePairedByPosition},
 			{ID: "C14-R23", Title: "a verdict about a module names the module", Floor: 1, Run: verdictsAboutAModuleNameTheModule},
+			{ID: "C14-R24", Title: "an importer's failure is not taken for absence", Floor: 2, Run: importerFailuresAreNotTakenForAbsence},
+			{ID: "C14-R25", Title: "the import root is absolute whenever it can be", Floor: 1, Run: theImportRootIsAbsoluteWheneverItCanBe},
 		},
 	})
 }
